@@ -232,7 +232,21 @@ func (g *sim) runOne(id string) {
 		args = append(args, fmt.Sprintf("inject=%s:%d", kind, g.r.Intn(4)))
 		g.tags["inject-"+kind] = true
 	}
-	if g.p.Inter && g.r.Chance(1, 3) {
+	if g.p.Inter && strings.HasPrefix(id, "cfg:") && g.r.Chance(1, 3) {
+		// the device restarts empty, comes back over a new connection and a new master is elected while
+		// the configuration reconciler is between two requests of a re-synchronisation, or between the last
+		// one and its status write
+		t := atoi(strings.TrimPrefix(id, "cfg:"))
+		for rid, rt := range g.rels {
+			if rt == t {
+				delete(g.rels, rid)
+			}
+		}
+		g.nextRel++
+		g.rels[g.nextRel] = t
+		args = append(args, fmt.Sprintf("inter=%d:F.devrestart.%d+F.relup.%d.%d+mast:%d", g.r.Intn(5), t, g.nextRel, t, t))
+		g.tags["pre-empted"], g.tags["restart-inside-resync"] = true, true
+	} else if g.p.Inter && g.r.Chance(1, 3) {
 		// pre-emption: another reconciler (a different work-queue partition) runs one whole invocation
 		// just before the k-th write of this one
 		var cands []string
